@@ -378,6 +378,15 @@ async fn acquire_authority_lock_with_recovery(
 
 #[cfg(not(test))]
 #[allow(dead_code)]
+#[cfg(all(rip_verif, not(test)))]
+pub(crate) async fn verif_acquire_authority_lock_with_recovery(
+    client: &Client,
+    data_dir: &std::path::Path,
+    workspace_root: &std::path::Path,
+) -> Result<AuthorityLockGuard, String> {
+    acquire_authority_lock_with_recovery(client, data_dir, workspace_root).await
+}
+
 pub(crate) fn build_app(data_dir: std::path::PathBuf) -> Router {
     build_app_with_workspace_root_and_provider(
         data_dir,
